@@ -57,6 +57,7 @@ type wtInfo struct {
 	Main  bool
 	Head  string
 	Index map[string]string // path -> LFS oid
+	File  map[string]string // path -> "deleted" | "edited" when the work-tree file is absent / is not the indexed content
 }
 
 type refInfo struct{ Name, Sha string }
@@ -299,20 +300,61 @@ func (b *wb) local(kind string) {
 		b.git("stash", "-q")
 	case "wt-branch":
 		b.git("worktree", "add", "-q", "-b", "wtb", filepath.Join(b.w.Root, "wt1"), wtBase)
-	case "wt-detached-staged":
+	case "wt-detached-staged", "wt-detached-staged-edited", "wt-detached-staged-deleted":
 		wt := filepath.Join(b.w.Root, "wt2")
 		b.git("worktree", "add", "-q", "--detach", wt, wtBase)
-		b.put(wt, b.B, "w1")
-		b.gitIn(wt, "add", "--", b.B)
+		if kind == "wt-detached-staged" {
+			b.put(wt, b.B, "w1")
+			b.gitIn(wt, "add", "--", b.B)
+		} else {
+			b.stageIn(wt, b.B, "w1", "m.bin", "w2", strings.TrimPrefix(kind, "wt-detached-staged-"), "we")
+		}
 	case "staged":
 		b.set(b.A, "g1")
 		b.set("n.bin", "g2")
+	case "staged-edited", "staged-deleted":
+		// staged, then the work-tree files are changed / removed again without re-staging: only the index refers to g1, g2
+		b.stageIn(b.repo, b.A, "g1", "n.bin", "g2", strings.TrimPrefix(kind, "staged-"), "e")
+	case "restaged", "restaged-edited", "restaged-deleted":
+		// staged and committed (local, unpushed commit), then re-added with other content; optionally changed again
+		b.set(b.A, "g1")
+		b.set("n.bin", "g2")
+		b.commit("lc", c05LocalSlot)
+		b.stageIn(b.repo, b.A, "g3", "n.bin", "g4", strings.TrimPrefix(strings.TrimPrefix(kind, "restaged"), "-"), "e")
 	case "all":
 		b.local("stash-u")
 		b.local("wt-detached-staged")
 		b.local("staged")
 	default:
 		panic(buildFail{"unknown local state " + kind, false})
+	}
+}
+
+// stageIn stages, in worktree dir, version idMod at the tracked path pMod and version idNew at the path pNew, then puts
+// the work tree in the given after-state without touching the index: "" (untouched), "edited" (both files overwritten
+// with other content <ep>1/<ep>2) or "deleted" (both files removed).
+func (b *wb) stageIn(dir, pMod, idMod, pNew, idNew, after, ep string) {
+	b.put(dir, pMod, idMod)
+	b.put(dir, pNew, idNew)
+	b.gitIn(dir, "add", "--", pMod, pNew)
+	switch after {
+	case "":
+	case "edited":
+		// Git may or may not run the clean filter on the edited files (racily-clean index entries), which stores their
+		// content as a side effect; store it up front so that the local store does not depend on timing
+		for i, p := range []string{pMod, pNew} {
+			id := fmt.Sprintf("%s%d", ep, i+1)
+			b.put(dir, p, id)
+			gitx.PutObject(filepath.Join(b.repo, ".git", "lfs"), c05Data(id))
+		}
+	case "deleted":
+		for _, p := range []string{pMod, pNew} {
+			if err := os.Remove(filepath.Join(dir, p)); err != nil {
+				panic(buildFail{"cannot remove work-tree file: " + err.Error(), false})
+			}
+		}
+	default:
+		panic(buildFail{"unknown after-state " + after, false})
 	}
 }
 
@@ -481,7 +523,7 @@ func c05Facts(b *wb) *facts {
 	type ent struct{ path, blob string }
 	idx := map[string][]ent{}
 	for i, d := range dirs {
-		wt := wtInfo{Dir: d, Main: i == 0, Head: strings.TrimSpace(b.gitIn(d, "rev-parse", "HEAD")), Index: map[string]string{}}
+		wt := wtInfo{Dir: d, Main: i == 0, Head: strings.TrimSpace(b.gitIn(d, "rev-parse", "HEAD")), Index: map[string]string{}, File: map[string]string{}}
 		starts[wt.Head] = true
 		for _, e := range strings.Split(b.gitIn(d, "ls-files", "-s", "-z"), "\x00") {
 			if e == "" {
@@ -566,6 +608,11 @@ func c05Facts(b *wb) *facts {
 		for _, e := range idx[f.WTs[i].Dir] {
 			if oid, ok := ptr[e.blob]; ok {
 				f.WTs[i].Index[e.path] = oid
+				if data, err := os.ReadFile(filepath.Join(f.WTs[i].Dir, e.path)); err != nil {
+					f.WTs[i].File[e.path] = "deleted"
+				} else if gitx.Oid(data) != oid {
+					f.WTs[i].File[e.path] = "edited"
+				}
 			}
 		}
 	}
